@@ -36,8 +36,13 @@ def run(ctx):
         rename_chain(ctx, facts, f)
     for f in facts.need(RS + "_get_filename", "A", floor=2):
         get_filename(ctx, facts, f)
-    for f in facts.need(RS + "_size_rotation", "A", floor=2):
-        size_rotation(ctx, f)
+    if facts.fn_re("^" + re.escape(RS) + "_size_rotation$", "A") or any("_size_rotation" in (c.get("callee") or "") for f in wl for c in f.calls()):
+        for f in facts.need(RS + "_size_rotation", "A", floor=2):
+            size_rotation(ctx, f)
+    else:
+        # the helper merged into its only caller: the limit test and the rotation are looked for in write_log itself
+        for f in wl:
+            size_rotation(ctx, f, inline=True)
     for f in facts.need(RS + "_clean_and_recover_files", "A", floor=2):
         recover(ctx, facts, f)
     stream_write(ctx, facts)
@@ -72,11 +77,11 @@ def r1(ctx, facts, f):
     bid, tl, _c = nb[0]
     t = tnode(g, bid)
     live = g.reach([t], avoid_edges=[(bid, tl)])
-    sr = [c for c in f.calls(r"::_size_rotation$")]
+    sr, srp = size_sites(f)
     tr = [c for c in f.calls(r"::_time_rotation$")]
-    srp, trp = npos(f, sr), npos(f, tr)
+    trp = npos(f, tr)
     live_w = [p for p in wp if p in live]
-    ok = bool(sr) and bool(live_w) and not g.exists_path(live_w, srp + trp) and \
+    ok = bool(srp) and bool(live_w) and not g.exists_path(live_w, srp + trp) and \
         all(is_call(strip(c["args"][0], casts=True), r"basic_string_view<.*>::(size|length)$") and var_ref(call_obj(strip(c["args"][0], casts=True))) == stmt for c in sr) and \
         all(var_ref(c["args"][1]) == ts for c in sr) and all(var_ref(c["args"][0]) == ts for c in tr)
     ctx.ob("C14.R1c", site + ":rotate-before-write", ok,
@@ -121,12 +126,10 @@ def r1(ctx, facts, f):
            "this very statement (the flag that says so starts false and is set only from _time_rotation's result: %s)" % sound, fn=f)
 
 
-def size_rotation(ctx, f):
+def limit_tests(f, is_size):
+    """blocks that compare rotation_max_file_size() with _file_size + <size of the statement> (normalised: limit < sum / limit <= sum)"""
     g = f.g
-    site = "RotatingSink<%s>::_size_rotation" % inst(f)
-    szp = f.rec["params"][0]["did"]
-    rot = cpos(f, r"::_rotate_files$")
-    ok = False
+    out = []
     for bid, b in g.blocks.items():
         c = g.term_cond(bid)
         cs = cmp_sides(c) if c is not None else None
@@ -135,7 +138,62 @@ def size_rotation(ctx, f):
         small, big = strip(cs[1], casts=True), strip(cs[2], casts=True)
         if is_call(small, r"::rotation_max_file_size$") and isnode(big) and big["k"] == "BinaryOperator" and big["op"] == "+":
             terms = [big["lhs"], big["rhs"]]
-            if any(is_this_field(x, "_file_size") for x in terms) and any(var_ref(x) == szp for x in terms):
+            if any(is_this_field(x, "_file_size") for x in terms) and any(is_size(x) for x in terms):
+                out.append(bid)
+    return out
+
+
+def stmt_size_of(stmt):
+    return lambda x: is_call(strip(x, casts=True), r"basic_string_view<.*>::(size|length)$") and var_ref(call_obj(strip(x, casts=True))) == stmt
+
+
+def size_sites(f):
+    """where write_log takes the size-rotation decision: the calls of the helper, or (helper merged into write_log) the limit test itself"""
+    sr = [c for c in f.calls(r"::_size_rotation$")]
+    if sr:
+        return sr, npos(f, sr)
+    stmt = f.rec["params"][11]["did"]
+    lt = limit_tests(f, stmt_size_of(stmt))
+    return [], [tnode(f.g, b) for b in lt]
+
+
+def size_rotation(ctx, f, inline=False):
+    g = f.g
+    site = "RotatingSink<%s>::%s" % (inst(f), "write_log(size rotation inlined)" if inline else "_size_rotation")
+    if inline:
+        stmt = f.rec["params"][11]["did"]
+        tsd = f.rec["params"][1]["did"]
+        is_size = stmt_size_of(stmt)
+        all_rot = f.calls(r"::_rotate_files$")
+    else:
+        szp = f.rec["params"][0]["did"]
+        tsd = f.rec["params"][1]["did"]
+        is_size = lambda x: var_ref(x) == szp
+    rot = cpos(f, r"::_rotate_files$")
+    ok = False
+    if inline:
+        lts = limit_tests(f, is_size)
+        for bid in lts:
+            # cmp_sides normalises to small < big, here limit < size + statement: the raw true edge is 'would exceed'
+            after = g.reach([tnode(g, bid)], avoid_edges=[(bid, "F")])
+            wp_ = npos(f, [c for c in f.calls(r"::write_log$") if c.get("qualified") or "RotatingSink" not in c["callee"]])
+            ok = bool(rot) and not g.exists_path([g.entry_node], rot, avoid_edges=[(bid, "T")]) and \
+                not g.exists_path([tnode(g, bid)], wp_, avoid_nodes=rot, avoid_edges=[(bid, "F")])
+        ctx.ob("C14.R1f", site + ":limit-test", ok and len(lts) == 1,
+               "the file is rotated exactly when tracked size + statement size would exceed the limit (so no file exceeds it unless a single "
+               "statement does)", fn=f)
+        ctx.ob("C14.R1g", site + ":passes-timestamp", bool(all_rot) and all(var_ref(c["args"][0]) == tsd for c in all_rot),
+               "the rotation receives the statement's timestamp", fn=f)
+        return
+    for bid, b in g.blocks.items():
+        c = g.term_cond(bid)
+        cs = cmp_sides(c) if c is not None else None
+        if not cs:
+            continue
+        small, big = strip(cs[1], casts=True), strip(cs[2], casts=True)
+        if is_call(small, r"::rotation_max_file_size$") and isnode(big) and big["k"] == "BinaryOperator" and big["op"] == "+":
+            terms = [big["lhs"], big["rhs"]]
+            if any(is_this_field(x, "_file_size") for x in terms) and any(is_size(x) for x in terms):
                 ok = bool(rot) and not g.exists_path([g.entry_node], rot, avoid_edges=[(bid, "T")]) and \
                     not g.exists_path([tnode(g, bid)], [g.exit_node], avoid_nodes=rot, avoid_edges=[(bid, "F")])
     ctx.ob("C14.R1f", site + ":limit-test", ok,
